@@ -2,7 +2,8 @@ PROP = {
     "groups": ["names"],
     "rule": "real receiver name handling (recvFileName over the wire, createFile, unmarshalSourceFile+createDirOrFile with "
             "truncate on/off, archiveFileWriter.Write headers incl. nested, deleteCreatedFiles, getNewName) in real directory "
-            "trees <case>/r/sb/{dest,outside,evil}: pre-states with colliding files/dirs, name.N series with gaps and full "
+            "trees <private mktemp root>/l1/../l8/r/sb/{dest,outside,evil} (11 levels deep, at most 6 '..' per name, so that a tree "
+            "without the validation cannot escape the root): pre-states with colliding files/dirs, name.N series with gaps and full "
             "1001-series, file-where-dir-needed and vice versa; name sequences clean (unicode, spaces, leading dots, 251..255 "
             "bytes) and hostile ('..', 'a/../..', absolute, empty, '.', NUL, 256/300 bytes, malformed JSON); whole-tree snapshots "
             "(relative paths, types, bytes, mtimes) before, after every message and after the deletion are turned into an effect "
